@@ -33,8 +33,16 @@ def stages(tier):
     else:
         c = (S.grid_small(2, bs=(64,), qs=(1, 2, 10), nmax=3, endings=("close", "destroy")) +
              S.grid_small(2, bs=(16,), cs=(8, 16, 17, 64), qs=(1, 3), nmax=2, endings=("close",)))
+    # abandoning a read session while the decoder waits on a full queue: q+2 objects, all data already inflated
+    full_queue = []
+    for q in (1, 2):
+        n = q + 2
+        for early in range(0, n):
+            for ending in ("close", "destroy"):
+                full_queue.append(S.cfg("r", [48] * n, 256, 256, q, early, ending, bound=2))
+    c = c + full_queue
     st.append(dict(label="C: bound 2", harness="h_session", variant="sched", configs=c, share=0.6, chunk=2,
-                   what="every pair of deviations"))
+                   what="every pair of deviations; includes early close with the decoder blocked on the full queue (q+2 objects)"))
     st.append(dict(label="S: stream stage alone, deviation bound 2 and preemption bound 2", harness="h_stream", variant="sched",
                    configs=S.stream_grid(2, 0) + ([] if quick else S.stream_grid(2, 1) + S.stream_grid(3, 0, 18)), share=0.3, reserve=18,
                    what="bare UncompressedFile, producer (raw writes of w bytes / appended containers of w bytes, then setFileSize) and consumer "
